@@ -307,4 +307,263 @@ theorem absLoop_out (off : Nat) (len : Int) (segs : List TSeg) (vr : VR) (p : Na
     · simp only [hl, if_true] at this ⊢; exact this.1
     · simp only [hl, if_false] at this ⊢; exact this.1
 
+/-! ### navigating to a segment of an encoded file -/
+
+structure Walk (b : Bytes) (pos vp vl r : Nat) (segs : List TSeg) (nf : Bool) : Prop where
+  drop : b.drop pos = segs.flatMap TSeg.bytes
+  wf : segsWF r nf segs
+  vrIn : r ≠ 0 → readVR b vp = .ok ⟨vp, vl⟩ ∧ vp + vl = pos + r ∧ 80 ≤ vp ∧ vp + 4 ≤ pos ∧ 20 ≤ vl ∧ vl ≤ 16384
+  pos80 : 80 ≤ pos
+
+theorem bytes_length (s : TSeg) (hn : s.data.length = s.d.n) :
+    s.bytes.length = (match s.d.vr with | some _ => 4 | none => 0) + s.d.segLen := by
+  unfold TSeg.bytes
+  rw [List.length_append, lrsBytes_length s hn]
+  cases s.d.vr <;> rfl
+
+theorem Walk.step {b pos vp vl r x rest nf} (w : Walk b pos vp vl r (x :: rest) nf) :
+    ∃ r', Walk b (walkEnd pos vp vl [x]).1 (walkEnd pos vp vl [x]).2.1 (walkEnd pos vp vl [x]).2.2 r' rest x.last := by
+  obtain ⟨hn, h16, hf, hm⟩ := w.wf
+  have hd := w.drop
+  rw [List.flatMap_cons] at hd
+  have hbl := bytes_length x hn
+  unfold walkEnd
+  cases hv : x.d.vr with
+  | some L =>
+    rw [hv] at hm hbl
+    obtain ⟨hr, hL1, hL2, hL3, hW⟩ := hm
+    simp only [walkEnd]
+    refine ⟨L - (4 + x.d.segLen), ?_, hW, ?_, by have := w.pos80; omega⟩
+    · rw [show pos + 4 + x.d.segLen = pos + (4 + x.d.segLen) by omega, drop_add', hd]
+      exact List.drop_left' hbl
+    · intro _
+      refine ⟨readVR_enc b pos L (x.lrsBytes ++ rest.flatMap TSeg.bytes) hL1 hL2 ?_, by omega, w.pos80, by omega, hL1, hL2⟩
+      rw [hd, TSeg.bytes, hv, List.append_assoc]
+  | none =>
+    rw [hv] at hm hbl
+    obtain ⟨hr, hle, hW⟩ := hm
+    simp only [walkEnd]
+    refine ⟨r - x.d.segLen, ?_, hW, ?_, by have := w.pos80; omega⟩
+    · rw [drop_add', hd]
+      exact List.drop_left' (by simpa using hbl)
+    · intro _
+      obtain ⟨h1, h2, h3, h4, h5, h6⟩ := w.vrIn hr
+      exact ⟨h1, by omega, h3, by omega, h5, h6⟩
+
+theorem walkEnd_cons (pos vp vl : Nat) (x : TSeg) (rest : List TSeg) :
+    walkEnd pos vp vl (x :: rest) =
+      walkEnd (walkEnd pos vp vl [x]).1 (walkEnd pos vp vl [x]).2.1 (walkEnd pos vp vl [x]).2.2 rest := by
+  simp only [walkEnd]
+  cases x.d.vr <;> rfl
+
+theorem Walk.head {b pos vp vl r s post nf} (w : Walk b pos vp vl r (s :: post) nf) :
+    let e : Nat × Nat × Nat := match s.d.vr with
+      | some L => (pos, L, pos + 4)
+      | none => (vp, vl, pos)
+    readVR b e.1 = .ok ⟨e.1, e.2.1⟩ ∧ ∃ h r', readLRSH b e.2.2 = .ok h ∧ h.pos = e.2.2 ∧
+      AtSeg b h s (post.flatMap TSeg.bytes) ∧ Inv ⟨e.1, e.2.1⟩ h r' ∧ 16 ≤ s.d.segLen ∧ segsWF r' s.last post := by
+  obtain ⟨hn, h16, hf, hm⟩ := w.wf
+  have hd := w.drop
+  rw [List.flatMap_cons, TSeg.bytes] at hd
+  cases hv : s.d.vr with
+  | some L =>
+    rw [hv] at hm hd
+    obtain ⟨hr, hL1, hL2, hL3, hW⟩ := hm
+    simp only []
+    have hd4 : b.drop (pos + 4) = s.lrsBytes ++ post.flatMap TSeg.bytes := by
+      rw [drop_add', hd, List.append_assoc]; exact List.drop_left' rfl
+    obtain ⟨h, hh, hpos, A⟩ := atSeg_of_drop b _ s _ hd4 hn
+    refine ⟨readVR_enc b pos L _ hL1 hL2 (by rw [hd, List.append_assoc]), h, L - (4 + s.d.segLen), hh, hpos, A, ?_, h16, hW⟩
+    have := A.len; have := w.pos80
+    constructor <;> simp only [hpos] <;> omega
+  | none =>
+    rw [hv] at hm hd
+    obtain ⟨hr, hle, hW⟩ := hm
+    simp only []
+    obtain ⟨h1, h2, h3, h4, h5, h6⟩ := w.vrIn hr
+    obtain ⟨h, hh, hpos, A⟩ := atSeg_of_drop b pos s _ (by simpa [vrHeader] using hd) hn
+    refine ⟨h1, h, r - s.d.segLen, hh, hpos, A, ?_, h16, hW⟩
+    have := A.len
+    constructor <;> simp only [hpos] <;> omega
+
+theorem Walk.nav {b s post} : ∀ (pre : List TSeg) (pos vp vl r : Nat) (nf : Bool),
+    Walk b pos vp vl r (pre ++ s :: post) nf →
+    ∃ r' nf', Walk b (walkEnd pos vp vl pre).1 (walkEnd pos vp vl pre).2.1 (walkEnd pos vp vl pre).2.2 r' (s :: post) nf' := by
+  intro pre
+  induction pre with
+  | nil => intro pos vp vl r nf w; exact ⟨r, nf, w⟩
+  | cons x pre ih =>
+    intro pos vp vl r nf w
+    obtain ⟨r1, w1⟩ := Walk.step w
+    rw [walkEnd_cons]
+    exact ih _ _ _ _ _ w1
+
+theorem Walk.start (sul : SULW) (segs : List TSeg) (hs : sul.conformant = true) (W : segsWF 0 true segs) :
+    Walk (encodeSUL sul ++ segs.flatMap TSeg.bytes) 80 0 0 0 segs true :=
+  ⟨List.drop_left' (encodeSUL_length sul hs), W, fun h => absurd rfl h, Nat.le_refl _⟩
+
+/-! ### the record's segments inside the flat list -/
+
+theorem cutAll_append : ∀ (rpre : List LR) (lpre : List (List SegDesc)) (r : LR) (ds : List SegDesc)
+    (rpost : List LR) (lpost : List (List SegDesc)), lpre.length = rpre.length →
+    cutAll (rpre ++ r :: rpost) (lpre ++ ds :: lpost) = cutAll rpre lpre ++ (cutRec r true ds r.payload ++ cutAll rpost lpost) := by
+  intro rpre
+  induction rpre with
+  | nil => intro lpre r ds rpost lpost h; cases lpre <;> simp_all [cutAll]
+  | cons x xs ih =>
+    intro lpre r ds rpost lpost h
+    cases lpre with
+    | nil => simp at h
+    | cons l ls =>
+      simp only [List.cons_append, cutAll, List.append_assoc]
+      rw [ih ls r ds rpost lpost (by simpa using h)]
+
+theorem recData_cutRec (r : LR) (post : List TSeg) : ∀ (ds : List SegDesc) (f : Bool) (data : Bytes), ds ≠ [] →
+    recData (cutRec r f ds data ++ post) = data.take (ds.map (·.n)).sum := by
+  intro ds
+  induction ds with
+  | nil => intro f data h; exact absurd rfl h
+  | cons d ds' ih =>
+    intro f data _
+    cases ds' with
+    | nil => simp [cutRec, recData]
+    | cons d2 ds'' =>
+      have hc : cutRec r f (d :: d2 :: ds'') data = ⟨r.eflr, r.type, f, false, d, data.take d.n⟩ ::
+          cutRec r false (d2 :: ds'') (data.drop d.n) := rfl
+      rw [hc, List.cons_append]
+      simp only [recData, Bool.false_eq_true, if_false]
+      rw [ih false (data.drop d.n) (by simp)]
+      simp only [List.map_cons, List.sum_cons]
+      rw [List.take_add (i := d.n)]
+
+theorem exists_last_cutRec (r : LR) : ∀ (ds : List SegDesc) (f : Bool) (data : Bytes), ds ≠ [] →
+    ∃ s ∈ cutRec r f ds data, s.last = true := by
+  intro ds
+  induction ds with
+  | nil => intro f data h; exact absurd rfl h
+  | cons d ds' ih =>
+    intro f data _
+    cases ds' with
+    | nil => exact ⟨⟨r.eflr, r.type, f, true, d, data.take d.n⟩, by simp [cutRec], rfl⟩
+    | cons d2 ds'' =>
+      obtain ⟨s, hs, hl⟩ := ih false (data.drop d.n) (by simp)
+      exact ⟨s, by simp only [cutRec, List.mem_cons] at hs ⊢; right; exact hs, hl⟩
+
+theorem absLoop_some (off len : Int) (all : Bool) : ∀ (segs : List TSeg), (∃ s ∈ segs, s.last = true) →
+    ∀ (vr : VR) (p : Nat) (a : LoopSt), ∃ res, absLoop off len all vr p segs a = some res := by
+  intro segs
+  induction segs with
+  | nil => intro h; obtain ⟨s, hs, _⟩ := h; simp at hs
+  | cons s ss ih =>
+    intro h vr p a
+    simp only [absLoop]
+    cases hl : s.last
+    · simp only [Bool.false_eq_true, if_false]
+      obtain ⟨x, hx, hxl⟩ := h
+      have hx' : x ∈ ss := by
+        rcases List.mem_cons.mp hx with rfl | h'
+        · rw [hl] at hxl; exact absurd hxl (by simp)
+        · exact h'
+      cases ss with
+      | nil => simp at hx'
+      | cons s' ss' =>
+        simp only []
+        cases s'.d.vr with
+        | some L => exact ih ⟨x, hx', hxl⟩ _ _ _
+        | none => exact ih ⟨x, hx', hxl⟩ _ _ _
+    · exact ⟨absRead off len all a s.data (p + 4, s.d.n + s.d.padBytes.length), by simp⟩
+
+theorem recsOK_mid_sum : ∀ (rpre : List LR) (lpre : List (List SegDesc)) (r : LR) (ds : List SegDesc)
+    (rpost : List LR) (lpost : List (List SegDesc)), lpre.length = rpre.length →
+    recsOK (rpre ++ r :: rpost) (lpre ++ ds :: lpost) = true → (ds.map (·.n)).sum = r.payload.length := by
+  intro rpre
+  induction rpre with
+  | nil =>
+    intro lpre r ds rpost lpost hlen h
+    cases lpre with
+    | nil => simp only [List.nil_append, recsOK, recOK, Bool.and_eq_true, beq_iff_eq] at h; exact h.1.1.1.1.2
+    | cons _ _ => simp at hlen
+  | cons x xs ih =>
+    intro lpre r ds rpost lpost hlen h
+    cases lpre with
+    | nil => simp at hlen
+    | cons l ls =>
+      simp only [List.cons_append, recsOK, Bool.and_eq_true] at h
+      exact ih ls r ds rpost lpost (by simpa using hlen) h.2
+
+/-! ### a fetch on an encoded file -/
+
+theorem fetch_flat (sul : SULW) (pre post : List TSeg) (s : TSeg) (hs : sul.conformant = true)
+    (W : segsWF 0 true (pre ++ s :: post)) (hlast : ∃ x ∈ s :: post, x.last = true) (off : Nat) (len : Int) :
+    ∃ vl res, absLoop (off : Int) len ((off : Int) == 0 && decide (len < 0)) ⟨(entryAfter pre s.d).1, vl⟩
+          (entryAfter pre s.d).2 (s :: post) ⟨[], 0, 0, [((entryAfter pre s.d).1, 4), ((entryAfter pre s.d).2, 4)]⟩ = some res ∧
+      fetch (encodeSUL sul ++ (pre ++ s :: post).flatMap TSeg.bytes) ⟨(entryAfter pre s.d).1, (entryAfter pre s.d).2, off, len⟩
+        = .ok ⟨res.out, res.touched⟩ := by
+  generalize hb : encodeSUL sul ++ (pre ++ s :: post).flatMap TSeg.bytes = b
+  have w0 : Walk b 80 0 0 0 (pre ++ s :: post) true := hb ▸ Walk.start sul _ hs W
+  obtain ⟨r1, nf1, w1⟩ := Walk.nav pre 80 0 0 0 true w0
+  have hh := Walk.head w1
+  -- the entry computed by the specification is the one the walk arrives at
+  have he : (entryAfter pre s.d) = (match s.d.vr with
+      | some _ => ((walkEnd 80 0 0 pre).1, (walkEnd 80 0 0 pre).1 + 4)
+      | none => ((walkEnd 80 0 0 pre).2.1, (walkEnd 80 0 0 pre).1)) := rfl
+  cases hv : s.d.vr with
+  | some L =>
+    rw [hv] at hh he
+    simp only [] at hh he
+    obtain ⟨hvr, h, r', hh', hpos, A, I, h16, W'⟩ := hh
+    rw [he]
+    simp only []
+    obtain ⟨res, hres⟩ := absLoop_some (off : Int) len ((off : Int) == 0 && decide (len < 0)) (s :: post) hlast
+      ⟨(walkEnd 80 0 0 pre).1, L⟩ ((walkEnd 80 0 0 pre).1 + 4)
+      ⟨[], 0, 0, [((walkEnd 80 0 0 pre).1, 4), ((walkEnd 80 0 0 pre).1 + 4, 4)]⟩
+    refine ⟨L, res, hres, ?_⟩
+    have hfuel : post.length < b.length + 1 := by
+      have h1 := length_le_flatMap_bytes post
+      have h2 : (b.drop h.pos).length ≤ b.length := by simp
+      rw [A.drop, List.length_append] at h2; omega
+    have hpc := lrPosCheck_ok ⟨(walkEnd 80 0 0 pre).1, L⟩ h r' I.p1 I.p2 I.p3 I.p4 I.p5 (by rw [A.len]; exact h16)
+    have hloop := getLoop_flat b (off : Int) len ((off : Int) == 0 && decide (len < 0)) post s (b.length + 1)
+      ⟨(walkEnd 80 0 0 pre).1 + 4 + 4, ⟨(walkEnd 80 0 0 pre).1, L⟩, h⟩ _ r' res hfuel A I (by simp [hpos]) W'
+      (by simpa [hpos] using hres)
+    unfold fetch getLogicalDataSt vrRead lrshRead
+    have hoff : ¬ ((off : Int) < 0) := by omega
+    simp only [hoff, if_false, hvr, hh', hpc]
+    revert hloop
+    generalize getLoop b (off : Int) len ((off : Int) == 0 && decide (len < 0)) (b.length + 1) _ _ = g
+    intro hloop
+    obtain ⟨g1, g2⟩ := g
+    simp only [] at hloop
+    subst hloop
+    rfl
+  | none =>
+    rw [hv] at hh he
+    simp only [] at hh he
+    obtain ⟨hvr, h, r', hh', hpos, A, I, h16, W'⟩ := hh
+    rw [he]
+    simp only []
+    obtain ⟨res, hres⟩ := absLoop_some (off : Int) len ((off : Int) == 0 && decide (len < 0)) (s :: post) hlast
+      ⟨(walkEnd 80 0 0 pre).2.1, (walkEnd 80 0 0 pre).2.2⟩ ((walkEnd 80 0 0 pre).1)
+      ⟨[], 0, 0, [((walkEnd 80 0 0 pre).2.1, 4), ((walkEnd 80 0 0 pre).1, 4)]⟩
+    refine ⟨(walkEnd 80 0 0 pre).2.2, res, hres, ?_⟩
+    have hfuel : post.length < b.length + 1 := by
+      have h1 := length_le_flatMap_bytes post
+      have h2 : (b.drop h.pos).length ≤ b.length := by simp
+      rw [A.drop, List.length_append] at h2; omega
+    have hpc := lrPosCheck_ok ⟨(walkEnd 80 0 0 pre).2.1, (walkEnd 80 0 0 pre).2.2⟩ h r' I.p1 I.p2 I.p3 I.p4 I.p5
+      (by rw [A.len]; exact h16)
+    have hloop := getLoop_flat b (off : Int) len ((off : Int) == 0 && decide (len < 0)) post s (b.length + 1)
+      ⟨(walkEnd 80 0 0 pre).1 + 4, ⟨(walkEnd 80 0 0 pre).2.1, (walkEnd 80 0 0 pre).2.2⟩, h⟩ _ r' res hfuel A I
+      (by simp [hpos]) W' (by simpa [hpos] using hres)
+    unfold fetch getLogicalDataSt vrRead lrshRead
+    have hoff : ¬ ((off : Int) < 0) := by omega
+    simp only [hoff, if_false, hvr, hh', hpc]
+    revert hloop
+    generalize getLoop b (off : Int) len ((off : Int) == 0 && decide (len < 0)) (b.length + 1) _ _ = g
+    intro hloop
+    obtain ⟨g1, g2⟩ := g
+    simp only [] at hloop
+    subst hloop
+    rfl
+
 end TD.C02
